@@ -82,8 +82,12 @@ func MapOk[T any, U any](f Future[T], fn func(T) U) Future[U] {
 			poll: func() (Result[U], bool) {
 				r, ok := f.poll()
 				var r2 Result[U]
-				if ok && r.IsOk() {
-					r2.Value = fn(r.Value)
+				if ok {
+					if r.IsOk() {
+						r2.Value = fn(r.Value)
+					} else {
+						r2.Error = r.Error
+					}
 				}
 				return r2, ok
 			},
@@ -108,8 +112,12 @@ func MapOkToAny[T any](f Future[T]) Future[any] {
 			poll: func() (Result[any], bool) {
 				r, ok := f.poll()
 				var r2 Result[any]
-				if ok && r.IsOk() {
-					r2.Value = r.Value
+				if ok {
+					if r.IsOk() {
+						r2.Value = r.Value
+					} else {
+						r2.Error = r.Error
+					}
 				}
 				return r2, ok
 			},
@@ -134,8 +142,12 @@ func MapOkValue[T any, U any](f Future[T], v U) Future[U] {
 			poll: func() (Result[U], bool) {
 				r, ok := f.poll()
 				var r2 Result[U]
-				if ok && r.IsOk() {
-					r2.Value = v
+				if ok {
+					if r.IsOk() {
+						r2.Value = v
+					} else {
+						r2.Error = r.Error
+					}
 				}
 				return r2, ok
 			},
